@@ -54,6 +54,10 @@ Inductive case :=
 | CBurst (ins : list (item * N * N)) (len : nat) (dels : list (item * N)) (broken : bool)
 (* producer and consumer in lock-step (insert one item, wait for its delivery), free running *)
 | CPing (rounds : N) (stalled : bool)
+(* free-running producers against a consumer that keeps up; nobody closes or cancels until the
+   consumer has received everything or has made no progress for the watchdog period although
+   accepted insertions are undelivered (stalled) *)
+| CKeepup (ins : list (item * N)) (del : list (item * N)) (stalled : bool)
 (* which error Next returned when its context ended *)
 | CCtxErr (c : ctxk) (k : errk).
 
@@ -581,6 +585,12 @@ Definition check_case (c : case) : list (nat * N) :=
   | CBulk script news len dels broken => check_bulk script news len dels broken
   | CBurst ins len dels broken => check_burst ins len dels broken
   | CPing _ stalled => if stalled then [(O, 5)] else []
+  | CKeepup ins del stalled =>
+      (* a waiting consumer is always woken by an insertion: it may not be left parked with
+         accepted insertions undelivered; and what it delivered is what was accepted *)
+      if stalled then [(O, 5)]
+      else if forallb (fun ic => N.eqb (total_of (fst ic) ins) (total_of (fst ic) del)) (ins ++ del)
+           then [] else [(O, 3)]
   | CCtxErr c k => check_ctxerr c k
   end.
 
